@@ -13,6 +13,7 @@ if fs.exists(meson.current_source_dir() / 'FAIL')
 endif
 """
 SUB_BUILD = "project('sub')\n"
+SUB_OPTIONS = "option('level', type: 'string', value: 'sublevel', yield: true)\n"
 
 
 def options_text(spec):
@@ -59,11 +60,12 @@ def persisted(build, names):
         out[n] = cd.optstore.get_value_for(k) if k in cd.optstore.options else None
     out['default_library'] = cd.optstore.get_value_for(OptionKey('default_library'))
     out['sub:default_library'] = cd.optstore.get_value_for('default_library', 'sub')
+    out['sub:level'] = cd.optstore.get_value_for('level', 'sub')
     return out
 
 
 STEPS = [('conf', 'level', 'one'), ('conf', 'level', 'two'), ('conf', 'mode', 'a'), ('conf', 'mode', 'b'), ('conf-bad',), ('conf-sub', 'static'), ('conf-sub', 'both'),
-         ('unset-sub',), ('edit', 'level-default'), ('edit', 'mode-choices'), ('edit', 'add-extra'), ('edit', 'remove-extra'), ('reconf',), ('reconf-fail',), ('wipe',),
+         ('unset-sub',), ('conf-subopt', 'mine'), ('conf-subopt', 'one'), ('unset-subopt',), ('edit', 'level-default'), ('edit', 'mode-choices'), ('edit', 'add-extra'), ('edit', 'remove-extra'), ('reconf',), ('reconf-fail',), ('wipe',),
          ('reconf-D', 'level', 'three'), ('conf-global', 'static')]
 
 
@@ -74,6 +76,7 @@ class Model:
         self.values = {'level': 'one', 'mode': 'a'}
         self.glob = 'shared'
         self.over = None
+        self.sublevel = None          # explicit value of the yielding subproject option sub:level (None: it yields to level)
         self.given = {}
 
     def valid(self, name, v):
@@ -84,6 +87,7 @@ class Model:
         out = {n: self.values.get(n) for n in ('level', 'mode', 'extra')}
         out['default_library'] = self.glob
         out['sub:default_library'] = self.over if self.over is not None else self.glob
+        out['sub:level'] = self.sublevel if self.sublevel is not None else self.values.get('level')
         return out
 
     def reconf(self, extra_given=()):
@@ -110,6 +114,7 @@ class Model:
         self.values = {n: self.given.get(n, d) for n, (d, ch) in self.file.items()}
         self.glob = self.given.get('default_library', 'shared')
         self.over = self.given.get('sub:default_library')
+        self.sublevel = self.given.get('sub:level')
         return True
 
 
@@ -122,6 +127,7 @@ def run_sequence(seq):
         os.makedirs(os.path.join(src, 'subprojects', 'sub'))
         open(os.path.join(src, 'meson.build'), 'w').write(MESON_BUILD)
         open(os.path.join(src, 'subprojects', 'sub', 'meson.build'), 'w').write(SUB_BUILD)
+        open(os.path.join(src, 'subprojects', 'sub', 'meson.options'), 'w').write(SUB_OPTIONS)
         optfile = os.path.join(src, 'meson.options')
         open(optfile, 'w').write(options_text(m.file))
         rc, out = meson(['setup', '--backend=none', build, src])
@@ -155,6 +161,14 @@ def run_sequence(seq):
                 rc, out = meson(['configure', build, f'-Dsub:default_library={st[1]}'])
                 m.over = st[1]
                 m.given['sub:default_library'] = st[1]
+            elif kind == 'conf-subopt':
+                rc, out = meson(['configure', build, f'-Dsub:level={st[1]}'])
+                m.sublevel = st[1]
+                m.given['sub:level'] = st[1]
+            elif kind == 'unset-subopt':
+                rc, out = meson(['configure', build, '-Usub:level'])
+                m.sublevel = None
+                m.given.pop('sub:level', None)
             elif kind == 'unset-sub':
                 rc, out = meson(['configure', build, '-Usub:default_library'])
                 must_succeed = m.over is not None
@@ -184,11 +198,11 @@ def run_sequence(seq):
                 os.unlink(os.path.join(src, 'FAIL'))
                 must_succeed = False
             elif kind == 'wipe':
-                snapshot = (dict(m.values), m.glob, m.over)
+                snapshot = (dict(m.values), m.glob, m.over, m.sublevel)
                 rc, out = meson(['setup', '--wipe', build, src])
                 must_succeed = m.wipe()
                 if not must_succeed:
-                    m.values, m.glob, m.over = snapshot
+                    m.values, m.glob, m.over, m.sublevel = snapshot
             else:
                 raise ValueError(kind)
             what = f'step {i} {st}'
@@ -251,10 +265,12 @@ def run(REG, tier, seed, jobs):
              (('conf', 'mode', 'b'), ('edit', 'mode-choices'), ('reconf-fail',), ('reconf',)),
              (('edit', 'add-extra'), ('reconf',), ('edit', 'remove-extra'), ('reconf',), ('wipe',)),
              (('conf-global', 'static'), ('conf-sub', 'both'), ('unset-sub',), ('reconf',)),
-             (('reconf-D', 'level', 'three'), ('edit', 'level-default'), ('wipe',))]
+             (('reconf-D', 'level', 'three'), ('edit', 'level-default'), ('wipe',)),
+             (('conf-subopt', 'mine'), ('unset-subopt',), ('conf', 'level', 'two')), (('conf-subopt', 'one'), ('conf', 'level', 'two'), ('wipe',)),
+             (('conf-subopt', 'mine'), ('reconf',), ('unset-subopt',), ('reconf',))]
     ev, nt, fails = pmap(_life_chunk, chunked(iter(seqs), 8), jobs)
     return {'parts': [{'name': 'C08/bounded/real-lifecycle-vs-reference-model', 'function': 'meson setup / configure / --reconfigure / --wipe (in process, --backend=none)',
-                       'bound': f'{len(seqs)} command sequences over {len(STEPS)} step kinds (configure -D valid/invalid/equal to current, -Dsub:/-Usub: override, option-file edits, reconfigure with/without -D, injected failure, wipe), persisted coredata and cmd_line.txt compared with a reference model after every step',
+                       'bound': f'{len(seqs)} command sequences over {len(STEPS)} step kinds (configure -D valid/invalid/equal to current, -Dsub:/-Usub: override of a builtin option and of a yielding project option, option-file edits, reconfigure with/without -D, injected failure, wipe), persisted coredata and cmd_line.txt compared with a reference model after every step',
                        'evaluations': ev, 'distinct_nontrivial': nt, 'rule': 'non-trivial: at least two steps', 'exhaustive': False, 'failures': fails}]}
 
 
